@@ -378,6 +378,8 @@ def r6_str_slice(w, receivers):
     n = 0
     for r in receivers:
         for h in re.finditer(r"\b%s\[" % re.escape(r), w.mbody):
+            if any(ed.s <= h.start() < ed.e for ed in w.edits):
+                continue
             po = h.end() - 1
             pc = lexer.match_close(w.body, po)
             inner = w.body[po + 1:pc]
@@ -653,3 +655,48 @@ def r_parse_u32(w):
         w.replace(h.start(), h.end(), "str_parse_u32(%s)" % recv, "R9", "str::parse::<u32> via shim (contract: canonical u32 parse)")
         n += 1
     return n
+
+
+# ----------------------------------------------------------------------------
+# R16: `S[A..].chars().next().map_or(D, |c| B)`  ->  match on the first character (Option::map_or with a closure, desugared)
+# ----------------------------------------------------------------------------
+
+def r16_first_char_map_or(w):
+    n = 0
+    for h in re.finditer(r"(\w+)\[\s*(\w+)\s*\.\.\s*\]\s*\.chars\(\)\s*\.next\(\)\s*\.map_or\s*\(", w.mbody):
+        po = h.end() - 1
+        pc = lexer.match_close(w.body, po)
+        inner = w.body[po + 1:pc]
+        parts = split_top_commas(inner)
+        if len(parts) != 2:
+            raise LostAnchor("map_or argument shape in %s" % w.qual())
+        dflt = inner[parts[0][0]:parts[0][1]]
+        clo = inner[parts[1][0]:parts[1][1]]
+        m = re.match(r"\|\s*(\w+)\s*\|\s*(.+)$", clo, re.S)
+        if not m:
+            raise LostAnchor("map_or closure shape in %s" % w.qual())
+        w.replace(h.start(), pc + 1, "match str_first_char(%s, %s) { None => %s, Some(%s) => %s }" % (h.group(1), h.group(2), dflt, m.group(1), m.group(2).strip()),
+                  "R16", "first-char + Option::map_or(closure) desugared to a match; closure body kept verbatim")
+        n += 1
+    return n
+
+
+def r_for_vec_shim(w, kw_start, vec_expr_fn, invariants, idx, ensures=None, except_break=None):
+    """`for x in EXPR { B }` where EXPR is an iterator chain without a Verus spec: iterate over the Vec returned by a shim instead.
+    vec_expr_fn(header_expr_text) -> replacement expression yielding a Vec (raises LostAnchor if the chain is not the expected one)."""
+    ls = [l for l in w.loops() if l[1] == kw_start]
+    kw, s, e = ls[0]
+    ob = w.loop_open_brace(e)
+    m = re.match(r"\s+(\w+)\s+in\s+(.+?)\s*$", w.body[e:ob], re.S)
+    if not m:
+        raise LostAnchor("for header shape in %s" % w.qual())
+    var, expr = m.group(1), m.group(2)
+    vec = vec_expr_fn(expr)
+    cb = lexer.match_close(w.body, ob)
+    vname = "__v" + idx.strip("_")
+    inv = inv_text(invariants, "%s.len() - %s" % (vname, idx), ensures, except_break)
+    w.replace(s, ob, "{ let %s = %s; let mut %s: usize = 0; while %s < %s.len()%s" % (vname, vec, idx, idx, vname, inv), "R12",
+              "for %s in %s -> index loop over the collected sequence" % (var, expr))
+    w.insert_at(ob + 1, " let %s = %s[%s]; %s += 1;" % (var, vname, idx, idx), "R12", "element binding + increment")
+    w.insert_at(cb + 1, " }", "R12", "close scope")
+    return var, vname
